@@ -71,7 +71,8 @@ def replay(job):
         docs = "release notes.txt" if idx % 3 == 2 else "docs.txt"        # every third history: a configured file whose name git quotes in its status output
         pre = "./" if respell else ""
         # every seventh history: a pre-commit hook that edits a configured file (a build stamp at the end of a.txt): its edit belongs to the bump commit
-        hooked = idx % 7 == 6
+        # (only in histories all of whose updates go through: a refusal the model expects because there is nothing to commit would not happen with the stamp)
+        hooked = idx % 7 == 6 and all(s_["ok"] for s_ in hist if s_["act"] == "update")
         # every fifth history: the config file lists itself with the pattern of a [project] table only (version = "..."), which finds the current_version line as well
         embedded = idx % 5 == 4 and not respell
         # every eleventh history: the config file is reached through a glob key only, with a pattern for another line of it - the pattern for its
